@@ -446,7 +446,7 @@ def generate(run, tier):
     global _GENERATED
     _GENERATED = True
     rng = run.rng("gen")
-    n = 500 if tier == "quick" else 5000
+    n = 500 if tier == "quick" else 15000
     cases = gen_matrix(rng)
     for k in range(n):
         stress = "odd" if k % 5 == 0 else None
